@@ -408,7 +408,8 @@ def report(pid, a, mod, results, bounded, seed, t0):
     if errors:
         for e_ in errors:
             print(f"CHECKER-ERROR property={pid} target={e_.get('target')}\n{e_.get('error')}")
-        exit_code = 3
+        # a violation confirmed by a native replay stands even if another part of the check crashed
+        exit_code = 1 if vio_out else 3
     elif vio_out:
         exit_code = 1
     elif undecided:
